@@ -334,6 +334,9 @@ func main() {
 	// ---- accessors (generated from the package-level variables of the files actually compiled) ----------
 	hasExpChain = !small && findMethod(cur["internal/field"], "expPMin3Div4")
 	expanderLenType = findExpander(cur[""])
+	if cp, ok := findCoordPaths(cur[""]); ok {
+		coordPaths = cp
+	}
 
 	for _, p := range pkgs {
 		vars := packageVars(cur[p.dir])
@@ -549,6 +552,116 @@ func packageVars(files map[string]string) []string {
 	return vars
 }
 
+// coordPaths are the selector paths (relative to an *Element) of the three coordinates of type field.Element.
+var coordPaths = [3]string{"x", "y", "z"}
+
+// findCoordPaths locates the coordinates in `type Element struct`: fields of type field.Element, directly or inside
+// fields whose type is a struct type declared in the same package (one or two levels). Fields named x, y, z (any
+// case) are matched by name, otherwise the first three in declaration order are taken as X, Y, Z.
+func findCoordPaths(files map[string]string) ([3]string, bool) {
+	fset := token.NewFileSet()
+	structs := map[string]*ast.StructType{}
+
+	for _, n := range sortedKeys(files) {
+		if ok, err := build.Default.MatchFile(filepath.Dir(files[n]), filepath.Base(files[n])); err == nil && !ok {
+			continue
+		}
+
+		f, err := parser.ParseFile(fset, files[n], nil, parser.SkipObjectResolution)
+		if err != nil {
+			continue
+		}
+
+		for _, d := range f.Decls {
+			gd, ok := d.(*ast.GenDecl)
+			if !ok || gd.Tok != token.TYPE {
+				continue
+			}
+
+			for _, sp := range gd.Specs {
+				ts := sp.(*ast.TypeSpec)
+				if st, ok := ts.Type.(*ast.StructType); ok {
+					structs[ts.Name.Name] = st
+				}
+			}
+		}
+	}
+
+	isFieldElement := func(e ast.Expr) bool {
+		sel, ok := e.(*ast.SelectorExpr)
+		if !ok || sel.Sel.Name != "Element" {
+			return false
+		}
+
+		id, ok := sel.X.(*ast.Ident)
+
+		return ok && id.Name == "field"
+	}
+
+	var paths []string
+
+	var walk func(st *ast.StructType, prefix string, depth int)
+
+	walk = func(st *ast.StructType, prefix string, depth int) {
+		for _, fl := range st.Fields.List {
+			names := fl.Names
+			if len(names) == 0 { // embedded
+				if id, ok := fl.Type.(*ast.Ident); ok {
+					names = []*ast.Ident{id}
+				}
+			}
+
+			for _, nm := range names {
+				if nm.Name == "_" {
+					continue
+				}
+
+				switch {
+				case isFieldElement(fl.Type):
+					paths = append(paths, prefix+nm.Name)
+				case depth < 2:
+					if id, ok := fl.Type.(*ast.Ident); ok {
+						if inner, ok := structs[id.Name]; ok {
+							walk(inner, prefix+nm.Name+".", depth+1)
+						}
+					}
+				}
+			}
+		}
+	}
+
+	el, ok := structs["Element"]
+	if !ok {
+		return coordPaths, false
+	}
+
+	walk(el, "", 0)
+
+	if len(paths) < 3 {
+		return coordPaths, false
+	}
+
+	var out [3]string
+
+	byName := 0
+
+	for _, p := range paths {
+		last := strings.ToLower(p[strings.LastIndex(p, ".")+1:])
+		for i, want := range []string{"x", "y", "z"} {
+			if last == want && out[i] == "" {
+				out[i] = p
+				byName++
+			}
+		}
+	}
+
+	if byName == 3 {
+		return out, true
+	}
+
+	return [3]string{paths[0], paths[1], paths[2]}, true
+}
+
 // expanderLenType is the type of the length parameter of the root package's expandXMD, "" if there is no function
 // of the shape expandXMD([]byte, []byte, <integer type>) []byte.
 var expanderLenType string
@@ -648,7 +761,14 @@ func accessorSource(p pkgInfo, vars []string, verif string) []byte {
 			die("%v", err)
 		}
 
-		b.Write(t)
+		// the selector paths of the three projective coordinates inside Element, found in the tree under test
+		// (x, y, z directly in the pinned tree; a refactoring may rename or nest them)
+		ts := string(t)
+		for i, ph := range []string{"@X@", "@Y@", "@Z@"} {
+			ts = strings.ReplaceAll(ts, ph, coordPaths[i])
+		}
+
+		b.WriteString(ts)
 	} else {
 		fmt.Fprintf(&b, "package %s\n\nimport \"fmt\"\n", p.name)
 	}
